@@ -65,7 +65,9 @@ SIB = (["SPDX-FileCopyrightText: 2018 Sib"], ["Zlib"], [])
 HOLDERS = ["Jane Doe", "ACME Inc.", "Jane Doe <jane@example.com>", "José Álvarez", "张三", "R&D, Ltd.", "The FOO Project Developers", "Doe; Jane",
            "Team «Rocket»", "\U0001F600 Smile Corp"]
 NOTICE_HOLDERS = ["Copyright 2017 Other Org", "SPDX-FileCopyrightText: 2016 Third Party", "© 2014 Fifth Ltd."]
-LICENSES = ["MIT", "GPL-3.0-or-later", "Apache-2.0 OR MIT", "0BSD", "LicenseRef-custom", "EUPL-1.2+", "mit", "GPL-2.0-only WITH Classpath-exception-2.0"]
+LICENSES = ["MIT", "GPL-3.0-or-later", "Apache-2.0 OR MIT", "0BSD", "LicenseRef-custom", "EUPL-1.2+", "mit", "GPL-2.0-only WITH Classpath-exception-2.0",
+            # spellings the parser prints differently (the header holds `str(parse(x))`)
+            "(BSD-3-Clause)", "ISC and Zlib", "CC0-1.0  OR   Unlicense", "GPL-2.0-only with Autoconf-exception-2.0"]
 CONTRIBUTORS = ["Alice", "Bob <bob@example.com>", "Zoë Ø"]
 DIRS = ["", "src/", "src/deep/"]
 DROPPING = ("drops-licences", "drops-copyright", "drops-both", "drops-first-licence", "drops-first-copyright")
@@ -903,7 +905,7 @@ class AnnotateE2EStream(Stream):
             except UnicodeDecodeError:
                 return "not-text: %s is not UTF-8 text after the run" % t
             # the comment form of the header: that of the file that holds it
-            probe = sorted(want[0])[0] if want[0] else "SPDX-License-Identifier: " + sorted(o["lic"])[0] if o.get("lic") else None
+            probe = sorted(want[0])[0] if want[0] else "SPDX-License-Identifier: " + sorted(want[1])[0] if want[1] else None
             if probe is not None and tmpl != "commented":
                 st = eff_style(case, t)
                 lead = ""
